@@ -81,3 +81,7 @@ package generic
 //@   loop 1 invariant sent === old(sent) ++ commands[0:rangeindex+1]
 //@   loop 1 invariant op.StopOnFailed ==> (forall j int :: 0 <= j && j <= rangeindex ==> m.Responses[j].Failed == nil)
 //@   loop 1 invariant (m.Failed != nil) <==> (exists j int :: 0 <= j && j <= rangeindex && m.Responses[j].Failed != nil)
+
+// ---- C07: closing a driver closes the channel (and with it the transport) on every path --------------------------------
+//@ func (*Driver).Close [C07]
+//@   ensures #channel-closed-even-if-on-close-fails implClosed
